@@ -173,4 +173,229 @@ CONTRACTS = [
         },
         lemmas=["pv_store_frame", "pv_leading_zeros"],
     ),
+    # ------------------------------------------------------------------ C16: bit_to_number
+    dict(name="dsw.operation.bit_to_number", abstract=True,
+         dispatch={"param": "is_string", "true": "dsw.operation.bit_to_number#str", "false": "dsw.operation.bit_to_number#int"}),
+    dict(
+        name="dsw.operation.bit_to_number#str", function="dsw.operation.bit_to_number", variant_of="dsw.operation.bit_to_number", n_loops=2,
+        params={"bit_array": "bits", "is_string": "true", "verbose": "false"},
+        returns="str",
+        ensures={"canonical": "canon(result)", "value": "dval(result) == val(bit_array, 0, len(bit_array), 2)"},
+        raises={},
+        loops={1: dict(binds="enumerate(bit_array)", invariant={
+            "canonical": "canon(decimal_number)", "horner": "dval(decimal_number) == val(bit_array, 0, _i, 2)"})},
+    ),
+    dict(
+        name="dsw.operation.bit_to_number#int", function="dsw.operation.bit_to_number", variant_of="dsw.operation.bit_to_number", n_loops=2,
+        params={"bit_array": "bits", "is_string": "false", "verbose": "false"},
+        returns="int",
+        ensures={"value": "result == val(bit_array, 0, len(bit_array), 2)"},
+        raises={},
+        loops={2: dict(binds="enumerate(bit_array)", invariant={"horner": "decimal_number == val(bit_array, 0, _i, 2)"})},
+    ),
+    # ------------------------------------------------------------------ C16: number_to_bit
+    dict(name="dsw.operation.number_to_bit", abstract=True,
+         dispatch={"param": "decimal_number", "str": "dsw.operation.number_to_bit#str", "int": "dsw.operation.number_to_bit#int"}),
+    dict(
+        name="dsw.operation.number_to_bit#str", function="dsw.operation.number_to_bit", variant_of="dsw.operation.number_to_bit", n_loops=2,
+        params={"decimal_number": "str", "bit_length": "nat"},
+        requires={"canonical-number": "canon(decimal_number)"},
+        returns="list_int",
+        ensures={
+            "length": "len(result) == bit_length",
+            "bits": "digits(result, 0, len(result), 1)",
+            "value": "implies(dval(decimal_number) < ipow(2, bit_length), val(result, 0, bit_length, 2) == dval(decimal_number))",
+        },
+        raises={},
+        ghost={
+            # gq = the quotient sequence: gq[0] = n, gq[i+1] = gq[i] // 2 ; the bit inserted in round i is gq[i] % 2
+            "before_loop1": "gq = [dval(decimal_number)]",
+            "loop1_begin": "pv_positive(A(decimal_number), D(decimal_number), P(decimal_number, 0), P(decimal_number, len(decimal_number)), 10)",
+            "loop1_end": "gq.append(dval(decimal_number))",
+            "after_loop1": "t = len(one_array)\n"
+                           "u = 0\n"
+                           "while u < t:\n"
+                           "    u += 1\n"
+                           "w = 0\n"
+                           "while w < t - 1:\n"
+                           "    w += 1\n",
+            "before_return": "if t > bit_length:\n"
+                             "    ipow_mono(2, bit_length, t - 1)\n"
+                             "if t < bit_length:\n"
+                             "    pv_zero(A(result), D(result), P(result, 0), P(result, bit_length - t), 2)\n"
+                             "    pv_leading_zeros(A(result), D(result), P(result, 0), P(result, bit_length - t), P(result, bit_length), 2)\n"
+                             "    pv_ext(A(result), D(result), P(result, bit_length - t), A(one_array), D(one_array), P(one_array, 0), t, 2)\n",
+        },
+        loops={
+            1: dict(binds="decimal_number != '0'", invariant={
+                "gq-length": "len(gq) == len(one_array) + 1",
+                "gq-head": "gq[0] == dval(old(decimal_number))",
+                "gq-step": "forall(lambda j: gq[j] >= 1 and gq[j + 1] == gq[j] // 2, 0, len(one_array))",
+                "gq-current": "gq[len(one_array)] == dval(decimal_number)",
+                "canonical": "canon(decimal_number)",
+                "bits": "forall(lambda j: one_array[j] == gq[len(one_array) - 1 - j] % 2, 0, len(one_array))",
+            }, variant="dval(decimal_number)"),
+            "after_loop1#1": dict(invariant={"range": "0 <= u <= t", "value": "val(one_array, 0, u, 2) == gq[t - u]"}, variant="t - u"),
+            "after_loop1#2": dict(invariant={"range": "0 <= w and (w <= t - 1 or t == 0)",
+                                             "lower-bound": "implies(t >= 1, gq[t - 1 - w] >= ipow(2, w))"}, variant="t - 1 - w"),
+        },
+        lemmas=["pv_store_frame", "pv_leading_zeros"],
+    ),
+    dict(
+        name="dsw.operation.number_to_bit#int", function="dsw.operation.number_to_bit", variant_of="dsw.operation.number_to_bit", n_loops=2,
+        params={"decimal_number": "nat", "bit_length": "nat"},
+        returns="list_int",
+        ensures={
+            "length": "len(result) == bit_length",
+            "bits": "digits(result, 0, len(result), 1)",
+            "value": "implies(decimal_number < ipow(2, bit_length), val(result, 0, bit_length, 2) == decimal_number)",
+        },
+        raises={},
+        ghost={
+            "before_loop2": "gq = [decimal_number]",
+            "loop2_end": "gq.append(decimal_number)",
+            "after_loop2": "t = len(one_array)\n"
+                           "u = 0\n"
+                           "while u < t:\n"
+                           "    u += 1\n"
+                           "w = 0\n"
+                           "while w < t - 1:\n"
+                           "    w += 1\n",
+            "before_return": "if t > bit_length:\n"
+                             "    ipow_mono(2, bit_length, t - 1)\n"
+                             "if t < bit_length:\n"
+                             "    pv_zero(A(result), D(result), P(result, 0), P(result, bit_length - t), 2)\n"
+                             "    pv_leading_zeros(A(result), D(result), P(result, 0), P(result, bit_length - t), P(result, bit_length), 2)\n"
+                             "    pv_ext(A(result), D(result), P(result, bit_length - t), A(one_array), D(one_array), P(one_array, 0), t, 2)\n",
+        },
+        loops={
+            2: dict(binds="decimal_number > 0", invariant={
+                "gq-length": "len(gq) == len(one_array) + 1",
+                "gq-head": "gq[0] == old(decimal_number)",
+                "gq-step": "forall(lambda j: gq[j] >= 1 and gq[j + 1] == gq[j] // 2, 0, len(one_array))",
+                "gq-current": "gq[len(one_array)] == decimal_number and decimal_number >= 0",
+                "bits": "forall(lambda j: one_array[j] == gq[len(one_array) - 1 - j] % 2, 0, len(one_array))",
+            }, variant="decimal_number"),
+            "after_loop2#1": dict(invariant={"range": "0 <= u <= t", "value": "val(one_array, 0, u, 2) == gq[t - u]"}, variant="t - u"),
+            "after_loop2#2": dict(invariant={"range": "0 <= w and (w <= t - 1 or t == 0)",
+                                             "lower-bound": "implies(t >= 1, gq[t - 1 - w] >= ipow(2, w))"}, variant="t - 1 - w"),
+        },
+        lemmas=["pv_store_frame", "pv_leading_zeros"],
+    ),
+    # ------------------------------------------------------------------ C16: dna_to_number / number_to_dna
+    dict(name="dsw.operation.dna_to_number", abstract=True,
+         dispatch={"param": "is_string", "true": "dsw.operation.dna_to_number#str", "false": "dsw.operation.dna_to_number#int"}),
+    dict(
+        name="dsw.operation.dna_to_number#str", function="dsw.operation.dna_to_number", variant_of="dsw.operation.dna_to_number", n_loops=2,
+        params={"dna_sequence": "str", "is_string": "true"},
+        returns="str",
+        ensures={"canonical": "canon(result)", "value": "dval(result) == dnav(dna_sequence, 0, len(dna_sequence))"},
+        raises={"ValueError": "not is_dna(dna_sequence)"},
+        loops={1: dict(binds="nucleotide_values", invariant={
+            "canonical": "canon(decimal_number)", "horner": "dval(decimal_number) == dnav(dna_sequence, 0, _i)"})},
+    ),
+    dict(
+        name="dsw.operation.dna_to_number#int", function="dsw.operation.dna_to_number", variant_of="dsw.operation.dna_to_number", n_loops=2,
+        params={"dna_sequence": "str", "is_string": "false"},
+        returns="int",
+        ensures={"value": "result == dnav(dna_sequence, 0, len(dna_sequence))"},
+        raises={"ValueError": "not is_dna(dna_sequence)"},
+        loops={2: dict(binds="nucleotide_values", invariant={"horner": "decimal_number == dnav(dna_sequence, 0, _i)"})},
+    ),
+    dict(name="dsw.operation.number_to_dna", abstract=True,
+         dispatch={"param": "decimal_number", "str": "dsw.operation.number_to_dna#str", "int": "dsw.operation.number_to_dna#int"}),
+    dict(
+        name="dsw.operation.number_to_dna#str", function="dsw.operation.number_to_dna", variant_of="dsw.operation.number_to_dna", n_loops=2,
+        params={"decimal_number": "str", "dna_length": "nat"},
+        requires={"canonical-number": "canon(decimal_number)"},
+        types={"one_array": "list_char"},
+        returns="str",
+        ensures={
+            "length": "implies(dval(decimal_number) < ipow(4, dna_length), len(result) == dna_length)",
+            "dna": "is_dna(result)",
+            "value": "implies(dval(decimal_number) < ipow(4, dna_length), dnav(result, 0, dna_length) == dval(decimal_number))",
+        },
+        raises={},
+        ghost={
+            "before_loop1": "gq = [dval(decimal_number)]\npv_bound(A(decimal_number), D(decimal_number), P(decimal_number, 0), P(decimal_number, len(decimal_number)), 10)",
+            "loop1_begin": "pv_positive(A(decimal_number), D(decimal_number), P(decimal_number, 0), P(decimal_number, len(decimal_number)), 10)",
+            "loop1_end": "gq.append(dval(decimal_number))",
+            "after_loop1": "t = len(one_array)\n"
+                           "arr1 = one_array\n"
+                           "u = 0\n"
+                           "while u < t:\n"
+                           "    u += 1\n"
+                           "w = 0\n"
+                           "while w < t - 1:\n"
+                           "    w += 1\n",
+            "before_return": "if t > dna_length:\n"
+                             "    ipow_mono(4, dna_length, t - 1)\n"
+                             "if t <= dna_length:\n"
+                             "    pv_zero(A(codes(result)), 0, P(result, 0), P(result, dna_length - t), 4)\n"
+                             "    pv_leading_zeros(A(codes(result)), 0, P(result, 0), P(result, dna_length - t), P(result, dna_length), 4)\n"
+                             "    pv_ext(A(codes(result)), 0, P(result, dna_length - t), A(codes(arr1)), 0, P(arr1, 0), t, 4)\n",
+        },
+        loops={
+            1: dict(binds="decimal_number != '0'", invariant={
+                "gq-length": "len(gq) == len(one_array) + 1",
+                "gq-head": "gq[0] == dval(old(decimal_number))",
+                "gq-step": "forall(lambda j: gq[j] >= 1 and gq[j + 1] == gq[j] // 4, 0, len(one_array))",
+                "gq-current": "gq[len(one_array)] == dval(decimal_number) and dval(decimal_number) >= 0",
+                "canonical": "canon(decimal_number)",
+                "dna": "is_dna(one_array)",
+                "codes": "forall(lambda j: code(one_array[j]) == gq[len(one_array) - 1 - j] % 4, 0, len(one_array))",
+            }, variant="dval(decimal_number)"),
+            "after_loop1#1": dict(invariant={"range": "0 <= u <= t", "value": "dnav(one_array, 0, u) == gq[t - u]"}, variant="t - u"),
+            "after_loop1#2": dict(invariant={"range": "0 <= w and (w <= t - 1 or t == 0)",
+                                             "lower-bound": "implies(t >= 1, gq[t - 1 - w] >= ipow(4, w))"}, variant="t - 1 - w"),
+        },
+        lemmas=["pv_store_frame", "pv_leading_zeros"],
+    ),
+    dict(
+        name="dsw.operation.number_to_dna#int", function="dsw.operation.number_to_dna", variant_of="dsw.operation.number_to_dna", n_loops=2,
+        params={"decimal_number": "nat", "dna_length": "nat"},
+        requires={},
+        types={"one_array": "list_char"},
+        returns="str",
+        ensures={
+            "length": "implies(decimal_number < ipow(4, dna_length), len(result) == dna_length)",
+            "dna": "is_dna(result)",
+            "value": "implies(decimal_number < ipow(4, dna_length), dnav(result, 0, dna_length) == decimal_number)",
+        },
+        raises={},
+        ghost={
+            "before_loop2": "gq = [decimal_number]",
+            
+            "loop2_end": "gq.append(decimal_number)",
+            "after_loop2": "t = len(one_array)\n"
+                           "arr1 = one_array\n"
+                           "u = 0\n"
+                           "while u < t:\n"
+                           "    u += 1\n"
+                           "w = 0\n"
+                           "while w < t - 1:\n"
+                           "    w += 1\n",
+            "before_return": "if t > dna_length:\n"
+                             "    ipow_mono(4, dna_length, t - 1)\n"
+                             "if t <= dna_length:\n"
+                             "    pv_zero(A(codes(result)), 0, P(result, 0), P(result, dna_length - t), 4)\n"
+                             "    pv_leading_zeros(A(codes(result)), 0, P(result, 0), P(result, dna_length - t), P(result, dna_length), 4)\n"
+                             "    pv_ext(A(codes(result)), 0, P(result, dna_length - t), A(codes(arr1)), 0, P(arr1, 0), t, 4)\n",
+        },
+        loops={
+            2: dict(binds="decimal_number > 0", invariant={
+                "gq-length": "len(gq) == len(one_array) + 1",
+                "gq-head": "gq[0] == old(decimal_number)",
+                "gq-step": "forall(lambda j: gq[j] >= 1 and gq[j + 1] == gq[j] // 4, 0, len(one_array))",
+                "gq-current": "gq[len(one_array)] == decimal_number and decimal_number >= 0",
+                
+                "dna": "is_dna(one_array)",
+                "codes": "forall(lambda j: code(one_array[j]) == gq[len(one_array) - 1 - j] % 4, 0, len(one_array))",
+            }, variant="decimal_number"),
+            "after_loop2#1": dict(invariant={"range": "0 <= u <= t", "value": "dnav(one_array, 0, u) == gq[t - u]"}, variant="t - u"),
+            "after_loop2#2": dict(invariant={"range": "0 <= w and (w <= t - 1 or t == 0)",
+                                             "lower-bound": "implies(t >= 1, gq[t - 1 - w] >= ipow(4, w))"}, variant="t - 1 - w"),
+        },
+        lemmas=["pv_store_frame", "pv_leading_zeros"],
+    ),
 ]
